@@ -56,6 +56,11 @@ claim("C17", "E2 differential + E1 model",
       "labelled / labelled.as_context / span-preserving map_err inserted at every subset of nodes of every small grammar (and sampled subsets of shaped and random ones) x all small inputs: acceptance, outputs, number of errors and every span must equal the undecorated run's; the decorated run's errors must carry the label in place of expectations at the first token, inner expectations + context further in, and the map_err mark on exactly its parser's failures.",
       MODEL_NOTE + " Known finding D14 (decoration around a recover_with shelters the outer pending error) is reported as KNOWN-FINDING by signature.", "DESIGN §5 C17")
 
+claim("C07", "E1 model",
+      "runtime monitoring: reference-model monitor over span + slice captures at every node (slice text and address), on contiguous and gapped-span input kinds",
+      "Every node of every small C01/C02-class grammar is wrapped in a map_with capture of span and slice, on &str (byte offsets, multi-byte text), &[char], Stream, and gapped-span kinds (Input::map over a slice, Stream::map, IterInput): every extent, every empty-match span, slice text and slice address (zero-copy), fold callback spans, spans handed to validate/try_map closures and zero-width probe spans are compared with the reference evaluation.",
+      MODEL_NOTE, "DESIGN §5 C07")
+
 NOT_CLAIMED = {}
 
 
